@@ -42,7 +42,8 @@ func IndexValue(base *Value, index *Value, span func() errors.Span) (*Value, *In
 		}
 		return (*list.Values)[int(index)], nil
 	case StringValueKind:
-		str := (*base).(ValueString).Inner
+		// index by character like `len` and iteration do, not by byte
+		str := []rune((*base).(ValueString).Inner)
 		index := (*index).(ValueInt).Inner
 
 		// handle index wrapping (-1 = len - 1)
